@@ -68,6 +68,8 @@ class SREC(BinFormat):
                 logger.warn("unknown SRECtype: %d"%l.SRECtype)
             self.L.append(l)
             i += 1
+        if len(self.L) == 0:
+            raise SRECError("no record found")
         self.__dataio = None
 
     @property
